@@ -1,7 +1,18 @@
+-- Root of the `Orda` library: the executable model, the specifications and every property module.
 import Orda.Model.Basic
 import Orda.Model.Json
 import Orda.Model.Datatypes
+import Orda.Model.Doc
 import Orda.Model.Replica
 import Orda.Model.Api
+import Orda.Model.Wired
+import Orda.Model.Server
 import Orda.Spec.Denote
 import Orda.Spec.Plain
+import Orda.Props.C01
+import Orda.Props.C02
+import Orda.Props.C03
+import Orda.Props.C04
+import Orda.Props.C09
+import Orda.Props.C10
+import Orda.Props.C15
